@@ -355,7 +355,7 @@ def gen(seed, run, tier='quick'):
             add({'a': 'base_type', 'name': tn_, 'ref_sym': None,
                  'quantum': None, 'expect': 'accept'})
             n = model.fresh()
-            ua, ub = f'u{n}', f'u{n}b'
+            ua, ub = f'u{n}', rng.choice([f'u{n}b', f'U{n}', f'u{n}B'])
             if rng.random() < 0.5:
                 ua, ub = ub, ua
             add({'a': 'plain_unit', 'type': tn_, 'sym': ua,
